@@ -16,7 +16,7 @@ def b(n):
         vlib.go_build(n); return (n, "ok")
     except Exception as e:
         return (n, "FAILED: " + str(e)[-500:])
-with ThreadPoolExecutor(max_workers=4) as ex:
+with ThreadPoolExecutor(max_workers=8) as ex:
     for n, r in ex.map(b, names):
         print("harness", n, r)
 PY
